@@ -13,16 +13,16 @@ package casper
 //       source becomes finalized only through its direct child.
 
 //verif:property C17
-//verif:bound SupLink: n = 1..4 effective validators (quick), 5..6 (thorough); each validator slot (< n) of the carried link independently empty, the validator's genuine signature, or 64 arbitrary (forged) bytes; every unused slot (>= n) empty or 1 arbitrary byte; link source height arbitrary
-//verif:bound Step: n = 1..4 validators (quick), 5..6 (thorough); tree R -> {A -> T, B}; source any of R (grandparent), A (direct parent), B (fork sibling), X (stored checkpoint below the root, not in the tree); statuses of A, B, T, X arbitrary (T also Growing), R justified or finalized; existing link source->T with arbitrary occupancy of the n validator slots; sender = any of the n validators (genuine signature or 64 arbitrary bytes) or a non-validator key (64 arbitrary bytes)
+//verif:bound SupLink: n = 1..3 effective validators (quick), 4..6 (thorough); each validator slot (< n) of the carried link independently empty, the validator's genuine signature, or 64 arbitrary (forged) bytes; every unused slot (>= n) empty or 1 arbitrary byte; link source height arbitrary
+//verif:bound Step: n = 1..3 validators (quick), 4..6 (thorough); tree R -> {A -> T, B}; source any of R (grandparent), A (direct parent), B (fork sibling), X (stored checkpoint below the root, not in the tree); statuses of A, B, T, X arbitrary (T also Growing), R justified or finalized; existing link source->T with arbitrary occupancy of the n validator slots; sender = any of the n validators (genuine signature or 64 arbitrary bytes) or a non-validator key (64 arbitrary bytes)
 //verif:assume validators of the parent epoch = n keys with distinct vote tallies above MinValidatorVoteNum (mainnet), so Order i belongs to key i; signature slots of orders >= n are empty in checkpoint links (VerifC17SupLink decides that only effective-validator slots are ever written)
 //verif:assume signature validity (XPub.Verify) is an uninterpreted predicate of (key, message, signature) for the solver; sha3 is an uninterpreted collision-free function; the native replay runs the real functions
 //verif:assume the store finds the checkpoints of the state by hash and by height (harness mock of state.Store), block headers exist for saveVerificationToHeader, the message queue accepts every post
 //verif:outside persistence across restart (database/store_checkpoint.go loadCheckpointsFromIter merges header sup links through LevelDB + JSON); AuthVerification's verification cache for unknown targets and tryRollback (channels); ApplyBlock's transaction processing
-//verif:obligation fn=VerifC17SupLink args=1;2;3;4 validate=12 mode=int
-//verif:obligation fn=VerifC17SupLink args=5;6 tier=thorough mode=int secs=3000
-//verif:obligation fn=VerifC17Step args=1;2;3;4 validate=12 mode=int
-//verif:obligation fn=VerifC17Step args=5;6 tier=thorough mode=int secs=3000
+//verif:obligation fn=VerifC17SupLink args=1;2;3 validate=12 mode=int
+//verif:obligation fn=VerifC17SupLink args=4;5;6 tier=thorough mode=int secs=3000
+//verif:obligation fn=VerifC17Step args=1;2;3 validate=12 mode=int
+//verif:obligation fn=VerifC17Step args=4;5;6 tier=thorough mode=int secs=3000
 
 import (
 	"encoding/hex"
